@@ -43,7 +43,10 @@ ObsTot(e)   == /\ e.obs.keys = sys.ks /\ e.obs.totc = expd.totc /\ e.obs.tot0 = 
 \* argument forms: stacked float states (c, ceq), dict arguments, and the un-reduced (A, ks) / own constants
 ObsForms(e) == /\ e.obs.qarr = <<expd.q, K>>
                /\ e.obs.totd = <<expd.totc, expd.tot0>>
-               /\ e.obs.scA = sys.nu /\ e.obs.scK = K /\ e.obs.eqc = SystemK
+               /\ e.obs.scA = sys.nu /\ e.obs.scK = K /\ e.obs.eqc = (IF e.opt[2] THEN SystemK ELSE K)
+               \* options away from their default: a `small` without precipitates changes nothing, explicit
+               \* eq_params are returned; frame: no argument is modified by a call
+               /\ e.obs.eqcs = (IF e.opt[2] THEN SystemK ELSE K) /\ e.obs.eqcp = K /\ e.obs.mut = <<>>
 ResultOK(e) == ObsLen(e) /\ ObsZero(e) /\ ObsQ(e) /\ ObsTot(e) /\ ObsForms(e)
 
 TStep ==
